@@ -1,0 +1,12 @@
+//go:build verif
+
+package types
+
+// TyVarHook observes every draw from the type-variable counter (verification builds only).
+var TyVarHook func(n int64)
+
+func tyVarHook(n int64) {
+	if h := TyVarHook; h != nil {
+		h(n)
+	}
+}
